@@ -67,3 +67,107 @@ func VP_C08_CrashInit() {
 	vpCrashCheck(base, "u", "init")
 	vpCover("end")
 }
+
+// VP_C08_KilledThenInspected: the process is killed before any one of the operation's mutating
+// file-system calls (one path per kill point, plus the completed run) and the directory it leaves
+// is then *used*: the real Check, Authenticate and ReadDir run on it. Complements vpCrashCheck (an
+// SMT encoding over names and inodes) with the clauses that are about behaviour after the crash: a
+// store that passed the consistency check still passes it; the old password works until the new
+// one does and no third one ever works; other users' files are untouched; the only residue is in
+// the work area.
+func VP_C08_KilledThenInspected() {
+	op := vpChoose("op", 2) // 0 add, 1 update
+	admin := vpChoose("admin", 2) == 1
+	base := vpMkStoreDir()
+	def := uint(1 + vpChoose("default-set", 2))
+	d := vpNewDir(base, def)
+	// the work area: absent, present, or present on another file system (a tmpfs mount or a link
+	// to one): rename then fails with EXDEV and whatever the code does instead is under test
+	otherDev := false
+	switch vpChoose("work-area", 3) {
+	case 1:
+		os.Mkdir(filepath.Join(base, ".tmp"), 0700)
+	case 2:
+		os.Mkdir(filepath.Join(base, ".tmp"), 0700)
+		otherDev = vpOtherDevice(filepath.Join(base, ".tmp"))
+	}
+	os.WriteFile(filepath.Join(base, "other.admin"), []byte(vpSupportedRecord()), 0600)
+	ext := ".user"
+	if admin {
+		ext = ".admin"
+	}
+	target := filepath.Join(base, "u"+ext)
+	opw := vpStr("oldpw", 2)
+	npw := vpStr("pw", 2)
+	third := vpStr("thirdpw", 2)
+	for _, set := range []uint{1, 2} {
+		vpAssume(!vpSameKey(set, opw, npw))
+		vpAssume(!vpSameKey(set, opw, third))
+		vpAssume(!vpSameKey(set, npw, third))
+	}
+	aux := ""
+	if op == 1 {
+		set := uint(1 + vpChoose("record-set", 2))
+		salt := vpBytes("oldsalt", refSaltLen(set))
+		aux = vpAux()
+		if os.WriteFile(target, []byte(refRecord(set, 1600000000, salt, refDigest(set, opw, salt))+aux), 0600) != nil {
+			panic("setup")
+		}
+		r0 := vpAuth(d, "u", opw)
+		vpAssert("old-password-works-before", r0.err == nil && r0.ok)
+	}
+	vpAssert("store-valid-before", d.Check() == nil)
+	before, _ := os.ReadFile(target)
+	otherBefore, _ := os.ReadFile(filepath.Join(base, "other.admin"))
+	var err error
+	killed := vpRunKillable(func() {
+		if op == 0 {
+			err = d.AddUser("u", npw, admin)
+		} else {
+			err = d.UpdateUser("u", npw)
+		}
+	})
+	if !killed && !otherDev {
+		vpAssert("operation-ok", err == nil)
+	}
+	// --- the directory as the next process finds it ---
+	d2 := vpNewDir(base, def)
+	vpAssert("model: kill: store still passes the consistency check", d2.Check() == nil)
+	after, rerr := os.ReadFile(target)
+	rn := vpAuth(d2, "u", npw)
+	ro := vpAuth(d2, "u", opw)
+	r3 := vpAuth(d2, "u", third)
+	vpAssert("model: kill: authenticate never crashes on the post-crash store", !rn.panicked && !ro.panicked && !r3.panicked)
+	newOK := rn.err == nil && rn.ok
+	oldOK := ro.err == nil && ro.ok
+	if op == 0 {
+		absentOrEmpty := rerr != nil || len(after) == 0
+		vpAssert("model: kill: add leaves absent, empty reservation or the complete new record", absentOrEmpty || newOK)
+		vpAssert("model: kill: nothing but the new password works after an add", !oldOK)
+		if !killed && err == nil {
+			vpAssert("completed-add-authenticates", newOK && rn.admin == admin)
+		}
+	} else {
+		vpAssert("model: kill: the record is the complete old or the complete new one", rerr == nil && (string(after) == string(before) || newOK))
+		vpAssert("model: kill: old password works until the new one does", oldOK != newOK)
+		if newOK {
+			_, newRest, ok2 := vpSplitRecord(string(after))
+			vpAssert("model: kill: new record comes with all auxiliary lines", ok2 && newRest == aux)
+		}
+		if !killed && err == nil {
+			vpAssert("completed-update-authenticates", newOK)
+		}
+		if !killed && err != nil {
+			vpAssert("failed-update-keeps-the-old-record", string(after) == string(before))
+		}
+	}
+	vpAssert("model: kill: no third password ever works", !(r3.err == nil && r3.ok))
+	otherAfter, oerr := os.ReadFile(filepath.Join(base, "other.admin"))
+	vpAssert("model: kill: other users' files untouched", oerr == nil && string(otherAfter) == string(otherBefore))
+	ents, _ := os.ReadDir(base)
+	for _, e := range ents {
+		n := e.Name()
+		vpAssert("model: kill: residue only in the work area", n == ".tmp" || n == "other.admin" || n == "u"+ext)
+	}
+	vpCover("end")
+}
